@@ -1,6 +1,7 @@
 import VrpModel.Export
 import VrpProofs.Lemmas.QuboBridge
 import VrpProofs.Props.C01
+import VrpProofs.Props.C04
 import VrpProofs.Lemmas.Export
 import Mathlib.Data.Rat.Floor
 import Mathlib.Algebra.Order.Field.Rat
@@ -341,5 +342,56 @@ theorem load_export_exact_feasibility (n : ℕ) (Q : Mat) (c : ℚ) (pattern : S
 theorem loadPinned_rejects_valid :
     loadPinnedAccepts (Container.mk' 3 (matOf [[1,0,0],[0,0,4],[0,0,-2]]) 0 "none").exportIsing = false := by
   decide +kernel
+
+/-! ## non-vacuity -/
+
+/-- dense rows of the feasibility QUBO (`ρ = 1`) of the path-based program `C04.nv_P.data` (pool built through
+    `add_route` on a reachable graph: 3 routes, 2 customers), as the driver hands them to the container -/
+def nv_rows : List (List ℚ) := [[-2, 1, 1], [1, -1, 0], [1, 0, -1]]
+
+example : tabulate2 3 3 (C04.nv_P.data.quboQ (defaultRho C04.nv_P.suffPenalty true) true) = nv_rows ∧
+    C04.nv_P.data.quboK (defaultRho C04.nv_P.suffPenalty true) = 2 := by decide +kernel
+
+/-- integrality hypothesis `hQ` of `feas_ising_coeffs_hundredths` / `load_export_exact_feasibility` -/
+theorem nv_rows_int : ∀ i j, ∃ z : ℤ, matOf nv_rows i j = z := by
+  have h : ∀ l ∈ nv_rows, ∀ q ∈ l, ∃ z : ℤ, q = z := by
+    intro l hl q hq
+    have : q = -2 ∨ q = 1 ∨ q = 0 ∨ q = -1 := by
+      simp only [nv_rows, List.mem_cons, List.not_mem_nil, or_false] at hl
+      rcases hl with rfl | rfl | rfl <;> simp at hq <;> tauto
+    rcases this with rfl | rfl | rfl | rfl
+    exacts [⟨-2, by norm_num⟩, ⟨1, by norm_num⟩, ⟨0, by norm_num⟩, ⟨-1, by norm_num⟩]
+  intro i j
+  unfold matOf
+  by_cases hi : i < nv_rows.length
+  · by_cases hj : j < nv_rows[i].length
+    · have e : (nv_rows.getD i []).getD j 0 = nv_rows[i][j] := by
+        simp [List.getD_eq_getElem?_getD, List.getElem?_eq_getElem hi, List.getElem?_eq_getElem hj]
+      rw [e]; exact h _ (List.getElem_mem hi) _ (List.getElem_mem hj)
+    · exact ⟨0, by simp [List.getD_eq_getElem?_getD, List.getElem?_eq_getElem hi,
+        List.getElem?_eq_none (not_lt.1 hj)]⟩
+  · exact ⟨0, by simp [List.getD_eq_getElem?_getD, List.getElem?_eq_none (not_lt.1 hi)]⟩
+
+theorem nv_pat : parsePattern "none" = .asIs := by decide +kernel
+
+/-- all hypotheses of `load_export_exact_feasibility` hold; conclusion at the spins `(-1, -1, -1)` (all three
+    routes selected: both customers covered twice, penalty 2) -/
+def nv_s : ℕ → ℤ := fun _ => -1
+
+example : ((loadFile (Container.mk' 3 (matOf nv_rows) 2 "none").exportIsing).isingEnergy100 nv_s : ℚ)
+    = 100 * evalIsing 3 (Container.mk' 3 (matOf nv_rows) 2 "none").J (Container.mk' 3 (matOf nv_rows) 2 "none").h
+        (Container.mk' 3 (matOf nv_rows) 2 "none").ci (fun i => (nv_s i : ℚ)) :=
+  load_export_exact_feasibility 3 (matOf nv_rows) 2 "none" (by rw [nv_pat]; exact nv_rows_int) ⟨2, by norm_num⟩ nv_s
+
+example : (loadFile (Container.mk' 3 (matOf nv_rows) 2 "none").exportIsing).isingEnergy100 nv_s = 200 ∧
+    (loadFile (Container.mk' 3 (matOf nv_rows) 2 "none").exportIsing).dim = 3 ∧
+    (Container.mk' 3 (matOf nv_rows) 2 "none").exportIsing.off.length = 4 := by decide +kernel
+
+/-- `load_entry` (hypotheses `i < n`, `j < n`) and `load_export_energy_qubo_binary` (binary `x`) on the same container -/
+example : (loadFile (Container.mk' 3 (matOf nv_rows) 2 "none").exportQubo).entry 0 1 = 100 :=
+  (load_entry _ _ _ _ 0 1 (by decide +kernel) (by decide +kernel)).trans (by decide +kernel)
+
+example : (loadFile (Container.mk' 3 (matOf nv_rows) 2 "none").exportQubo).quboEnergy100 (fun i => if i = 0 then 0 else 1) = 0 := by
+  rw [load_export_energy_qubo_binary _ _ (fun i => by by_cases h : i = 0 <;> simp [h])]; decide +kernel
 
 end Vrp.C10
